@@ -18,7 +18,8 @@ use std::path::PathBuf;
 use std::sync::Mutex;
 use std::sync::atomic::{AtomicU64, Ordering};
 
-const FILES: [(&str, &str); 11] = [
+const AUX_FILE: (&str, &str) = ("other", "fragment Other on User { name }\n");
+const FILES: [(&str, &str); 15] = [
     ("one-query", "query getUser { u { id } }\n"),
     ("two-operations", "query getUser { u { id } }\nmutation setIt { ping }\n"),
     ("query-and-fragment", "query getUser { u { ...userBits } }\nfragment userBits on User { id name }\n"),
@@ -30,6 +31,11 @@ const FILES: [(&str, &str); 11] = [
     ("all-kinds", "query q1 { s }\nmutation m1 { ping }\nsubscription s1 { tick }\nfragment f1 on User { id }\n"),
     // names that already end with a configured (or the default) suffix
     ("names-ending-with-suffixes", "query getUserDoc { u { ...userDoc ...UserFragment } }\nfragment userDoc on User { id }\nfragment UserFragment on User { name }\n"),
+    // an operation and a fragment sharing a name (two namespaces), with and without an `#import` in the file
+    ("same-name-fragment-first", "fragment Post on User { id }\nquery Post { u { ...Post } }\n"),
+    ("same-name-with-import", "#import Other from \"./other.graphql\"\nfragment Post on User { id }\nquery Post { u { ...Post ...Other } }\n"),
+    ("same-name-operation-first-with-import", "#import Other from \"./other.graphql\"\nmutation Post { set(input: {req: true}) { ...Post ...Other } }\nfragment Post on User { id }\n"),
+    ("import-only", "#import * from \"./other.graphql\"\nquery withImport { u { ...Other } }\n"),
     ("operation-names-ending-with-kind", "query userQuery { u { id } }\nmutation pingMutation { ping }\nsubscription tickSubscription { tick }\n"),
 ];
 
@@ -176,6 +182,7 @@ pub fn run(args: &RunArgs) -> i32 {
             for (fname, ftext) in FILES {
                 p.files.insert(format!("src/{fname}.graphql"), ftext.to_string());
             }
+            p.files.insert(format!("src/{}.graphql", AUX_FILE.0), AUX_FILE.1.to_string());
             crate::cli::materialize(&dir, &p);
             let a: Vec<String> = ["--config-file", "graphql.config.yaml", "--output-format", "json", "generate"].iter().map(|x| x.to_string()).collect();
             let r = crate::cli::run(&dir, &a, &[], std::time::Duration::from_secs(60));
@@ -209,7 +216,10 @@ pub fn run(args: &RunArgs) -> i32 {
                 rep.report(Violation { key: "machinery.config".into(), what: "parse_config rejected the generated config".into(), case: case(json!({})) });
                 continue;
             };
-            let ops = vec![(PathBuf::from("/p/a.graphql"), ftext.to_string())];
+            let mut ops = vec![(PathBuf::from("/p/a.graphql"), ftext.to_string())];
+            if ftext.contains("#import") {
+                ops.push((PathBuf::from(format!("/p/{}.graphql", AUX_FILE.0)), AUX_FILE.1.to_string()));
+            }
             let dts = catch(|| {
                 let loaded = pipeline::load_operations(&ops, 1).map_err(|f| format!("{:?}", f.diags))?;
                 pipeline::check_operations(&s.schema, &loaded).map_err(|f| format!("rejected {:?}", f.diags.iter().map(|d| d.msg.clone()).collect::<Vec<_>>()))?;
@@ -227,7 +237,8 @@ pub fn run(args: &RunArgs) -> i32 {
                 Ok(Ok(d)) => d,
             };
             // loader side, same config text
-            let js = match pool.ask(my, &json!({"text": ftext, "config": cfg_text})) {
+            let loader_files: Vec<J> = ops.iter().map(|(p, t)| json!([p.to_string_lossy(), t])).collect();
+            let js = match pool.ask(my, &json!({"text": ftext, "files": loader_files, "config": cfg_text})) {
                 crate::worker::Answer::Done(v) => match v["js"].as_str() {
                     Some(j) => j.to_string(),
                     None => {
@@ -256,8 +267,18 @@ pub fn run(args: &RunArgs) -> i32 {
                         return;
                     }
                 };
+                // a configuration that gives two definitions of the file the same constant name (an operation and a fragment
+                // called alike, both suffixes empty) leaves "the same name" without meaning: outside the property
+                {
+                    let mut seen = std::collections::BTreeSet::new();
+                    if dconsts.iter().any(|c| !seen.insert(c.clone())) {
+                        *outcomes.lock().unwrap().entry("skipped: two definitions share one constant name under this configuration".to_string()).or_insert(0) += 1;
+                        return;
+                    }
+                }
                 let jdocs: BTreeMap<String, J> = const_documents(&js).unwrap_or_default().into_iter().map(|(n, v, _)| (n, v)).collect();
-                let src = crate::rparse::parse_exec(ftext).unwrap();
+                let mut src = crate::rparse::parse_exec(ftext).unwrap();
+            src.defs.retain(|d| !matches!(d, ExecDef::Import { .. }));
                 *outcomes.lock().unwrap().entry(format!("{} value exports", dexp.len())).or_insert(0) += 1;
                 for (ename, dlocal) in &dexp {
                     exports_compared.fetch_add(1, Ordering::Relaxed);
